@@ -47,6 +47,7 @@ struct GenOpts {
   double utilLo = 0.05, utilHi = 1.3;
   bool globalDomain = false;  // C06 domain: rows >= 4 row-heights wide, >= 1 movable cell of positive area
   bool singleRowOnly = false;
+  bool connectAll = false;  // every movable cell shares a net with another cell (no two cells with identical, net-less targets)
   bool clump = false;       // every movable cell starts on / beyond one edge of the rows (all cells compete for the same rows)
   bool twoTypes = false;    // the movable cells alternate between two library cells of different heights (C18: systematic rounding)
   bool tallMix = false;     // half of the movable cells are several rows high (mixed heights)
@@ -307,6 +308,22 @@ inline Circuit genCircuit(Rng &r, const GenOpts &o, GenInfo *info = nullptr) {
     float weight = 1.0f;
     if (r.chance(0.3)) weight = (float)r.pick(std::vector<double>{0.25, 0.5, 2.0, 3.0, 1.5});
     c.addNet(cells, dx, dy, weight);
+  }
+  if (o.connectAll && n >= 2) {
+    // chain the cells that no net links to another cell
+    std::vector<bool> linked(n, false);
+    for (int k = 0; k < c.nbNets(); ++k) {
+      bool multi = false;
+      for (int j = 1; j < c.nbPinsNet(k); ++j) multi = multi || c.pinCell(k, j) != c.pinCell(k, 0);
+      if (multi)
+        for (int j = 0; j < c.nbPinsNet(k); ++j) linked[c.pinCell(k, j)] = true;
+    }
+    for (int i = 0; i < n; ++i) {
+      if (linked[i]) continue;
+      int other = (i + 1 + (int)r.in(0, n - 2)) % n;
+      c.addNet({i, other}, {(int)r.in(0, std::max(0, w[i])), (int)r.in(0, std::max(0, w[other]))}, {(int)r.in(0, std::max(0, h[i])), (int)r.in(0, std::max(0, h[other]))});
+      linked[i] = linked[other] = true;
+    }
   }
   if (info) info->rowHeight = H;
   return c;
